@@ -115,6 +115,13 @@ def cases(tier, seed, flavour, kinds=('strict', 'pinf', 'dinf')):
                     for v in range(nvar):
                         yield {'fam': 'planted', 'dims': d, 'n': n, 'p': p, 'kind': kind,
                                'variant': v + nvar * seed, 'cfgset': 'full'}
+    if tier == 'quick':
+        # square systems (as many variables as the cone has independent coordinates): the least-squares initial point is
+        # then feasible with s = 0, which is what the iteration-0 shortcut of conelp returns - with 's' blocks of order 2
+        for d in structs:
+            if d['l'] + sum(d['q']) + sum(m * (m + 1) // 2 for m in d['s']) == 3 and 'strict' in kinds:
+                for v in range(4):
+                    yield {'fam': 'planted', 'dims': d, 'n': 3, 'p': 0, 'kind': 'strict', 'variant': v + 4 * seed, 'cfgset': 'full'}
 
 
 def instances(case):
@@ -160,8 +167,11 @@ def run(case, prop, which, tier='quick'):
                 elif lab == 'dual infeasible' and 'dual infeasible' in which and not ext:
                     solve.check_dinf(O, inst, res, cfg.get('entry', 'conelp'), cfg)
                     nontrivial += 1
-                if lab in which and inst.get('truth') and not ext:
-                    # a planted truth contradicts the claimed status (decidable: the planted certificate is exact)
+                if lab in which and inst.get('truth') and not ext and \
+                        (cfg.get('opts') or {}).get('feastol', 1e-7) <= 1e-6:
+                    # a planted truth contradicts the claimed status (decidable: the planted certificate is exact).
+                    # Only at tight tolerances: with feastol 1e-2 a scaled-down feasible point of a bounded problem IS an
+                    # approximate infeasibility certificate in the documented sense, so the claim is legitimate there.
                     t = inst['truth']
                     if lab == 'optimal' and t != 'optimal' or lab != 'optimal' and t == 'optimal':
                         O.bad('status-contradicts-planted-truth:%s-vs-%s' % (lab.replace(' ', '_'), t.replace(' ', '_')),
